@@ -741,6 +741,11 @@ class SpectrumAnalyzer:
 
         # -------- Package SpectrumResult ----------
         m = float(freq) / final_fres
+        # Same clean-up as compute(): statistics that overflowed become 0, not inf/nan
+        MXX, MYY, mu_r, mu_i, M2 = (
+            float(_np.nan_to_num(v, nan=0.0, posinf=0.0, neginf=0.0))
+            for v in (MXX, MYY, mu_r, mu_i, M2)
+        )
         XY = complex(mu_r, mu_i)
 
         single_bin_results = {
@@ -1233,16 +1238,17 @@ class SpectrumResult:
                 elif name == "Hyx":
                     val = np.conj(self.Hxy)
                 elif name == "coh":
-                    val = np.divide(
-                        np.abs(self._data["XY"]) ** 2,
-                        self._data["XX"] * self._data["YY"],
-                        out=np.zeros_like(self._data["XX"]),
-                        where=(self._data["XX"] != 0) & (self._data["YY"] != 0),
-                    )
+                    # |XY|^2 / (XX*YY), formed as a product of two ratios so that
+                    # large-amplitude data cannot overflow the intermediate squares.
+                    absXY = np.abs(self._data["XY"])
+                    ok = (self._data["XX"] != 0) & (self._data["YY"] != 0)
+                    rx = np.divide(absXY, self._data["XX"], out=np.zeros_like(self._data["XX"]), where=ok)
+                    ry = np.divide(absXY, self._data["YY"], out=np.zeros_like(self._data["XX"]), where=ok)
+                    val = rx * ry
                 elif name == "ccoh":
                     val = np.divide(
                         self._data["XY"],
-                        np.sqrt(self._data["XX"] * self._data["YY"]),
+                        np.sqrt(self._data["XX"]) * np.sqrt(self._data["YY"]),
                         out=np.zeros_like(self._data["XX"], dtype=complex),
                         where=(self._data["XX"] != 0) & (self._data["YY"] != 0),
                     )
@@ -1342,7 +1348,7 @@ class SpectrumResult:
                 )
             elif name == "Gxy_dev":
                 val = (
-                    np.sqrt(np.abs(self.Gxy) ** 2 / coh / navg) if self.iscsd else None
+                    np.abs(self.Gxy) / np.sqrt(coh * navg) if self.iscsd else None
                 )
             elif name == "coh_dev":
                 val = (
